@@ -1,6 +1,7 @@
 package eng
 
 import (
+	"encoding/json"
 	"fmt"
 	"os"
 	"path/filepath"
@@ -149,6 +150,21 @@ func (L *Loaded) Execute(inst Instance) (x *Exec, err error) {
 		return nil, fmt.Errorf("harness function %s.%s not found", inst.Pkg, inst.Func)
 	}
 	x = NewExec(L.Prog, inst.Cfg)
+	if cj := os.Getenv("GSX_CONCRETE"); cj != "" {
+		var job ReplayJob
+		if b, err := os.ReadFile(cj); err == nil && json.Unmarshal(b, &job) == nil {
+			x.Concrete, x.concPos = &job, map[string]int{}
+		}
+	}
+	if cj := os.Getenv("GSX_PIN"); cj != "" {
+		var job ReplayJob
+		if b, err := os.ReadFile(cj); err == nil && json.Unmarshal(b, &job) == nil {
+			x.Pin, x.concPos, x.pinned = &job, map[string]int{}, map[*Term]uint64{}
+		}
+	}
+	if os.Getenv("GSX_TRACE") != "" {
+		x.TraceRegs = map[string]RegTrace{}
+	}
 	if os.Getenv("GSX_NOFEAS") != "" {
 		x.FeasOff = true
 	}
@@ -241,7 +257,17 @@ func Discharge(x *Exec, inst Instance, so SolveOpts) *InstResult {
 	var base []*Term
 	base = append(base, x.Assumes...)
 	base = append(base, x.parFinished...)
+	// unwinding assumptions: assertions are decided for executions inside the
+	// loop bounds; the bounds themselves are decided separately (unwinding
+	// assertions) and a violated bound makes the instance inconclusive
+	within := append([]*Term(nil), base...)
+	for _, o := range x.Obligs {
+		if o.Kind == "unwind" {
+			within = append(within, u.Not(o.Cond))
+		}
+	}
 	with := func(t *Term) []*Term { return append(append([]*Term(nil), base...), t) }
+	withIn := func(t *Term) []*Term { return append(append([]*Term(nil), within...), t) }
 	baseNF := append([]*Term(nil), x.Assumes...)
 	// vacuity: assumptions satisfiable
 	res, note := s.Query(base)
@@ -306,10 +332,18 @@ func Discharge(x *Exec, inst Instance, so SolveOpts) *InstResult {
 			return
 		}
 		all := u.False
+		onlyUnwind := true
 		for _, o := range group {
 			all = u.Or(all, o.Cond)
+			if o.Kind != "unwind" {
+				onlyUnwind = false
+			}
 		}
-		res, _ := s.Query(with(all))
+		q := withIn(all)
+		if onlyUnwind {
+			q = with(all)
+		}
+		res, _ := s.Query(q)
 		count(res)
 		if res == Unsat {
 			return
@@ -352,6 +386,16 @@ func Discharge(x *Exec, inst Instance, so SolveOpts) *InstResult {
 		decide(group[:mid])
 		decide(group[mid:])
 	}
+	var unw, rest []Oblig
+	for _, o := range asserts {
+		if o.Kind == "unwind" {
+			unw = append(unw, o)
+		} else {
+			rest = append(rest, o)
+		}
+	}
+	decide(unw)
+	asserts = rest
 	if len(asserts) <= 2*groupSize {
 		decide(asserts)
 	} else {
